@@ -281,93 +281,6 @@ theorem evalInOrder_eq_evalSeq (ts : List (Name × Comp)) (D : Name → Option F
 
 /-! ### `classify`: static / dynamic split as filters by the final parameter-name set -/
 
-theorem classify_spec (c : Content) (hs : c.surs = []) : ∀ (o st0 dy0 apn0 : List Name),
-    o.Nodup →
-    (∀ k ∈ o, k ∉ apn0 ∧ k ∉ omKeys c.vars ∧ k ∉ omKeys c.pars) →
-    (∀ k ∈ o, k ∈ omKeys c.rxns ∨ ∃ d, c.derived.lookup k = some d) →
-    ∃ apn', classify c o st0 dy0 apn0
-        = (st0.reverse ++ o.filter (fun k => apn'.contains k),
-           dy0.reverse ++ o.filter (fun k => !apn'.contains k), apn')
-      ∧ (∀ a, a ∈ apn0 → a ∈ apn')
-      ∧ (∀ a, a ∈ apn' → a ∈ apn0 ∨ a ∈ o)
-      ∧ (∀ k ∈ o, k ∈ apn' → k ∉ omKeys c.rxns ∧ ∃ d, c.derived.lookup k = some d ∧ ∀ a ∈ d.args, a ∈ apn') := by
-  intro o; induction o with
-  | nil =>
-    intro st0 dy0 apn0 _ _ _
-    exact ⟨apn0, by simp [classify], fun a h => h, fun a h => Or.inl h, fun k hk => by cases hk⟩
-  | cons k ks ih =>
-    intro st0 dy0 apn0 hnd hdis hkind
-    simp only [List.nodup_cons] at hnd
-    have hdis' : ∀ k' ∈ ks, k' ∉ apn0 ∧ k' ∉ omKeys c.vars ∧ k' ∉ omKeys c.pars :=
-      fun k' hk' => hdis k' (List.mem_cons_of_mem _ hk')
-    have hkind' : ∀ k' ∈ ks, k' ∈ omKeys c.rxns ∨ ∃ d, c.derived.lookup k' = some d :=
-      fun k' hk' => hkind k' (List.mem_cons_of_mem _ hk')
-    obtain ⟨hk0, hkv, hkp⟩ := hdis k List.mem_cons_self
-    have hsur : k ∉ omKeys c.surs := by simp [hs, omKeys]
-    have hvar : (omKeys c.vars).contains k = false := by simpa using hkv
-    have hpar : (omKeys c.pars).contains k = false := by simpa using hkp
-    -- the dynamic outcome, shared by reactions and derived with a non-parameter argument
-    have dyn_case : classify c (k :: ks) st0 dy0 apn0 = classify c ks st0 (k :: dy0) apn0 →
-        (k ∈ omKeys c.rxns ∨ ∃ d, c.derived.lookup k = some d ∧ ¬ ∀ a ∈ d.args, a ∈ apn0) →
-        ∃ apn', classify c (k :: ks) st0 dy0 apn0
-          = (st0.reverse ++ (k :: ks).filter (fun k => apn'.contains k),
-             dy0.reverse ++ (k :: ks).filter (fun k => !apn'.contains k), apn')
-        ∧ (∀ a, a ∈ apn0 → a ∈ apn')
-        ∧ (∀ a, a ∈ apn' → a ∈ apn0 ∨ a ∈ k :: ks)
-        ∧ (∀ k' ∈ k :: ks, k' ∈ apn' → k' ∉ omKeys c.rxns ∧ ∃ d, c.derived.lookup k' = some d ∧ ∀ a ∈ d.args, a ∈ apn') := by
-      intro heq _
-      obtain ⟨apn', h1, h2, h3, h4⟩ := ih st0 (k :: dy0) apn0 hnd.2 hdis' hkind'
-      have hk' : k ∉ apn' := by
-        intro hm; rcases h3 k hm with h | h
-        · exact hk0 h
-        · exact hnd.1 h
-      have hc : apn'.contains k = false := by simpa using hk'
-      refine ⟨apn', ?_, h2, fun a ha => (h3 a ha).imp id (List.mem_cons_of_mem _), ?_⟩
-      · rw [heq, h1]; simp [List.filter_cons, hk']
-      · intro k' hk'mem hk'apn
-        cases List.mem_cons.mp hk'mem with
-        | inl h => subst h; exact absurd hk'apn hk'
-        | inr h => exact h4 k' h hk'apn
-    by_cases hr : k ∈ omKeys c.rxns
-    · have hrc : (omKeys c.rxns).contains k = true := by simpa using hr
-      exact dyn_case (by simp [classify, hr]) (Or.inl hr)
-    · have hrc : (omKeys c.rxns).contains k = false := by simpa using hr
-      obtain ⟨d, hd⟩ := (hkind k List.mem_cons_self).resolve_left hr
-      by_cases hall : ∀ a ∈ d.args, a ∈ apn0
-      · -- static
-        have hallb : (d.args.all fun a => apn0.contains a) = true := by
-          simpa [List.all_eq_true] using hall
-        have heq : classify c (k :: ks) st0 dy0 apn0 = classify c ks (k :: st0) dy0 (k :: apn0) := by
-          simp [classify, hr, hsur, hkv, hkp, hd]
-          intro x hx hnx; exact absurd (hall x hx) hnx
-        obtain ⟨apn', h1, h2, h3, h4⟩ := ih (k :: st0) dy0 (k :: apn0) hnd.2
-          (fun k' hk' => ⟨by
-              intro hm
-              cases List.mem_cons.mp hm with
-              | inl h => exact hnd.1 (h ▸ hk')
-              | inr h => exact (hdis' k' hk').1 h, (hdis' k' hk').2⟩) hkind'
-        have hkin : k ∈ apn' := h2 k List.mem_cons_self
-        have hc : apn'.contains k = true := by simpa using hkin
-        refine ⟨apn', ?_, fun a ha => h2 a (List.mem_cons_of_mem _ ha), ?_, ?_⟩
-        · rw [heq, h1]; simp [List.filter_cons, hkin]
-        · intro a ha
-          rcases h3 a ha with h | h
-          · cases List.mem_cons.mp h with
-            | inl h' => exact Or.inr (h' ▸ List.mem_cons_self)
-            | inr h' => exact Or.inl h'
-          · exact Or.inr (List.mem_cons_of_mem _ h)
-        · intro k' hk'mem hk'apn
-          cases List.mem_cons.mp hk'mem with
-          | inl h =>
-            subst h
-            exact ⟨hr, d, hd, fun a ha => h2 a (List.mem_cons_of_mem _ (hall a ha))⟩
-          | inr h => exact h4 k' h hk'apn
-      · have hallb : (d.args.all fun a => apn0.contains a) = false := by
-          cases hb : (d.args.all fun a => apn0.contains a) with
-          | false => rfl
-          | true => exact absurd (by simpa [List.all_eq_true] using hb) hall
-        exact dyn_case (by simp [classify, hr, hsur, hkv, hkp, hd, hall]) (Or.inr ⟨d, hd, hall⟩)
-
 /-- `classify` when the order may also contain names of (initial-assignment) variables: those are static and
     do not enter the parameter-name set -/
 theorem classify_specV (c : Content) (hs : c.surs = []) : ∀ (o st0 dy0 apn0 : List Name),
